@@ -321,6 +321,14 @@ func (e *Engine) maybeInitializeChain(
 		}
 	}
 
+	// The mirror kernel panics on an empty initial validator set,
+	// so fail before persisting an unusable genesis finalization.
+	if len(valSet.Validators) == 0 {
+		return tmconsensus.Genesis{}, errors.New(
+			"genesis validator set is empty and init chain response had no validators (use tmengine.WithGenesis)",
+		)
+	}
+
 	// Get the block hash from the genesis with possibly updated validators.
 	updatedGenesis := tmconsensus.Genesis{
 		ChainID:             e.genesis.ChainID,
